@@ -384,7 +384,8 @@ class World:
     # ---- oracle -------------------------------------------------------------------------------------------------
     def fail(self, sig, what):
         self.ctx.oracle_fail(sig, what, {"world_seed": self.world_seed, "opener": self.opener, "n_events": self.n_events,
-                                         "t": self.now(), "events_so_far": list(self.trace)})
+                                         "vidx": getattr(self, "vidx", 0), "t": self.now(),
+                                         "events_so_far": list(self.trace)})
 
     def root_path_ok(self, v, p, h) -> bool:
         """token h and all its ancestors down to p's genesis were delivered from p to v and verify under p's key"""
@@ -654,6 +655,7 @@ class World:
             outs = sorted(re.sub(r"^(P\d+:\[\d*\]):\d+:(all|sub)$", r"\1:*", o) for o in outs)
         self.expect.append(" ".join(outs) or "-")
         for e in emitted:
+            self.ctx.count("out:" + {1: "disclose", 2: "attest", 3: "request_missing", 4: "missing_response"}.get(e.kind, "other"))
             if e.dst != v:
                 self.fail("request_attestation_advertisement:other-destination",
                           f"node {s} was asked to advertise to peer {v} and sent message {e.kind} to {e.dst}")
@@ -785,6 +787,11 @@ class Gen:
         self.hashes = hashes                      # 5 x 32 bytes + 1 x 20 bytes
         self.shadow = {k: [] for k in w.sk}       # p -> token blobs made outside p's node (dishonest alternatives)
         self.known_mds = []                       # (signer, metadata blob)
+        self.vidx = 0                             # which variant of its opener this world plays (rotates: see `pick`)
+
+    def pick(self, options, salt=0):
+        """opener variants rotate with the world index instead of being drawn: every variant occurs in every run"""
+        return options[(self.vidx + salt) % len(options)]
 
     def rhash(self):
         return self.rng.choice(self.hashes)
@@ -1083,8 +1090,8 @@ class Gen:
             meta = w.ov[a].metadata_chain[-1]
             real = [t.get_plaintext_signed() for t in w.ov[a].token_chain]
             x = rng.choice([k for k in w.sk if k not in (a, v)])
-            taint = rng.choice(["garbage-token", "foreign-token", "bad-attestation", "wrong-authority", "orphan-token",
-                                "foreign-metadata"])
+            taint = self.pick(["garbage-token", "foreign-token", "bad-attestation", "wrong-authority", "orphan-token",
+                               "foreign-metadata"])
             w.ctx.count("craft:taint:" + taint)
             toks, att, auth = list(real), b"", b""
             mdblob = meta.get_plaintext_signed()
@@ -1159,7 +1166,7 @@ class Gen:
             # metadata of a points at a token that is NOT on a verified chain of a (a waiting orphan of a, or a token of
             # b's chain that v holds in b's tree); v restarts with a NEW manager (trees are reloaded from the Tokens
             # table), the user registers again, and a nudges v with an empty token list
-            which = rng.choice(["orphan", "orphan", "other-subjects-token"])
+            which = self.pick(["orphan", "other-subjects-token", "orphan"])
             w.ctx.count("bad-token-then-restart:" + which)
             w.ev_reg(v, h1, name, a, None)
             w.ev_selfadv(a, h2, name)
@@ -1194,7 +1201,7 @@ class Gen:
                 blob = mk_token(w, a, prev, h1 if i == n - 1 else sha3(b"link%d" % i))
                 blobs.append(blob)
                 prev = sha3(blob)
-            forged = rng.random() < 0.8
+            forged = self.pick([True, True, False, True])
             if forged:
                 blobs, _ = self.forge_link(a, blobs, None, at=rng.choice([n - 1, n - 1, rng.randrange(n)]))
             w.ctx.count("forged-out-of-order:" + ("forged" if forged else "honest-control"))
@@ -1207,7 +1214,7 @@ class Gen:
             for e in w.craft(a, v, w.P.DisclosePayload(frame_md([md]), b"".join(first), b"", b""), "later tokens first"):
                 w.queue.remove(e)
                 w.ev_deliver(e)
-            how = rng.choice(["missing-response", "disclose", "one-by-one"])
+            how = self.pick(["missing-response", "disclose", "one-by-one"])
             w.ctx.count("forged-out-of-order:rest-by-" + how)
             if how == "missing-response":
                 pls = [w.P.MissingResponsePayload(b"".join(later))]
@@ -1241,8 +1248,9 @@ class Gen:
         elif kind == "restart":
             # first lifetime: attest a's credential, with or without a third party's attestation stored first;
             # then a new object over the same database, a renewed registration, and the same disclosure again
-            variant = rng.choice(["third-party-first", "third-party-first", "own-row-stored", "own-row-plus-row-of-other-subject"])
-            keep = rng.random() < 0.5
+            variant = self.pick(["third-party-first", "own-row-stored", "third-party-first",
+                                 "own-row-plus-row-of-other-subject"])
+            keep = self.pick([False, True], salt=self.vidx // 4)
             w.ctx.count("restart-opener:" + variant)
             w.ev_reg(v, h1, name, a, None)
             w.ev_selfadv(a, h1, name)
@@ -1281,7 +1289,7 @@ class Gen:
         elif kind == "orphan-flood":
             # more waiting tokens than the tree keeps (100): the oldest are forgotten; then the missing link arrives
             w.ev_reg(v, h1, name, a, None)
-            n = rng.choice([98, 101, 105, 120])
+            n = self.pick([98, 101, 105, 120])
             prev, blobs = w.genesis[a], []
             for i in range(n):
                 blob = mk_token(w, a, prev, h1 if i == n - 1 else sha3(b"flood%d" % i))
@@ -1430,12 +1438,14 @@ OPENERS = ["cross-subject", "expiry", "third-party-first", "replay", "long-chain
            "bad-token-then-restart", "refused-advert-then-growth", "none"]
 
 
-async def run_world(ctx: Ctx, loop, use_model: bool, opener: str, n_events: int, world_seed: int):
+async def run_world(ctx: Ctx, loop, use_model: bool, opener: str, n_events: int, world_seed: int, vidx: int = 0):
     w = World(ctx, loop, use_model, world_seed)
     w.opener, w.n_events = opener, n_events
     try:
         hashes = [w.rng.randbytes(32) for _ in range(5)] + [w.rng.randbytes(20)]
         g = Gen(w, hashes)
+        g.vidx = vidx
+        w.vidx = vidx
         ctx.count("opener:" + opener)
         g.opener(opener)
         for _ in range(n_events):
@@ -1483,7 +1493,7 @@ def run_worlds(ctx: Ctx, n_worlds: int, use_model: bool):
             opener = OPENERS[i % len(OPENERS)]
             n_events = ctx.rng.randint(25, 45)
             ws = ctx.rng.getrandbits(32)
-            w = loop.run_until_complete(run_world(ctx, loop, use_model, opener, n_events, ws))
+            w = loop.run_until_complete(run_world(ctx, loop, use_model, opener, n_events, ws, i // len(OPENERS)))
             if use_model:
                 d = ctx.driver()
                 replies = d.batch(w.lines)
@@ -1566,6 +1576,37 @@ def run_matrix(ctx: Ctx, use_model: bool):
         loop.close()
 
 
+# Input / branch classes every run (quick included) must reach.  A class that stays at zero means the generator silently lost
+# coverage of a branch the design lists: the run then ends as an infrastructure error (exit 2), never as a pass.
+REQUIRED_CLASSES = (
+    ["should_sign:" + k for k in ("unsolicited", "aborted", "incorrect", "json-raises", "token-unknown", "fields-missing",
+                                  "hash-unregistered", "other-subject", "expired", "name-differs", "metadata-differs",
+                                  "attested-mem", "attested-db", "signs")]
+    + ["attest:" + k for k in ("valid-for-sender", "valid-for-other", "invalid", "truncated")]
+    + ["request_missing:" + k for k in ("unpermitted", "beyond", "within")]
+    + ["out:" + k for k in ("attest", "request_missing", "missing_response", "disclose")]
+    + ["restart:manager=kept", "restart:manager=new", "restart:chain=reversed", "restart:chain=same"]
+    + ["restart-opener:" + k for k in ("third-party-first", "own-row-stored", "own-row-plus-row-of-other-subject")]
+    + ["craft:taint:" + k for k in ("garbage-token", "foreign-token", "bad-attestation", "wrong-authority", "orphan-token",
+                                    "foreign-metadata")]
+    + ["forged-out-of-order:forged", "forged-out-of-order:honest-control", "craft:forged-link:position=last",
+       "craft:forged-link:position=inner", "bad-token-then-restart:orphan", "bad-token-then-restart:other-subjects-token",
+       "orphan-flood:over-cap", "orphan-flood:within-cap", "advert:raised:RuntimeError", "advert:raised:TypeError",
+       "advert:credential-made", "disclosure:truncated", "disclosure:attestations=1", "reg:name=non-str",
+       "reg:md=fixed-without-json-form", "reg:md=none", "reg:md=fixed", "advance:fractional", "advance:whole",
+       "ev:deliver:disclose:replay", "oracle:attest-judged", "oracle:row-judged:own", "oracle:row-judged:from-attest-msg",
+       "oracle:row-judged:from-disclosure", "oracle:handout-judged:missing_response:tokens",
+       "oracle:handout-judged:missing_response:empty", "oracle:handout-judged:disclose:tokens",
+       "oracle:attested-again-after-restart:third-party-row-first", "matrix:cells"])
+
+
+def require_classes(ctx: Ctx):
+    missing = [k for k in REQUIRED_CLASSES if not ctx.counts.get(k)]
+    ctx.extra["required_classes"] = {"listed": len(REQUIRED_CLASSES), "missing": missing}
+    if missing and not _new_failures(ctx) and not ctx.disagreements and not ctx.broken:
+        raise InfraError("coverage lost: these input/branch classes were not reached in this run: " + ", ".join(missing))
+
+
 def generate(ctx: Ctx):
     return [("Ipv8/C17/Gen.lean", gen_c17.translate())]
 
@@ -1575,6 +1616,8 @@ def run(ctx: Ctx):
         return replay(ctx, ctx.replay_input)
     run_matrix(ctx, ctx.model_ok)
     run_worlds(ctx, ctx.scale(204, 3000), ctx.model_ok)
+    if ctx.model_ok:
+        require_classes(ctx)
 
 
 def search(ctx: Ctx, reason: str):
@@ -1596,7 +1639,8 @@ def replay(ctx: Ctx, rec: dict):
             combo = ast.literal_eval(r["opener"][len("matrix:"):])
             w = loop.run_until_complete(run_matrix_world(ctx, loop, False, combo, r["world_seed"]))
         else:
-            w = loop.run_until_complete(run_world(ctx, loop, False, r["opener"], r["n_events"], r["world_seed"]))
+            w = loop.run_until_complete(run_world(ctx, loop, False, r["opener"], r["n_events"], r["world_seed"],
+                                                  r.get("vidx", 0)))
     finally:
         vclock.uninstall()
         logging.disable(logging.NOTSET)
